@@ -60,6 +60,7 @@ type BN struct {
 	attCache    func(context.Context, eth2p0.Epoch, []eth2p0.ValidatorIndex) (eth2wrap.AttesterDutyWithMeta, error)
 	syncCache   func(context.Context, eth2p0.Epoch, []eth2p0.ValidatorIndex) (eth2wrap.SyncDutyWithMeta, error)
 	fail        map[string]int
+	failErr     map[string]error
 	// AfterAnswer, if set, runs after a duties endpoint has assembled its answer (from the tables as they were)
 	// and before the caller receives it: what happens while the response is on its way.
 	AfterAnswer func(endpoint string, epoch eth2p0.Epoch)
@@ -161,6 +162,9 @@ func upper(s string) string {
 // the Capella fork version (EIP-7044), every other domain with the fork version of the epoch.
 func (b *BN) Domain(_ context.Context, domainType eth2p0.DomainType, epoch eth2p0.Epoch) (eth2p0.Domain, error) {
 	b.log("Domain")
+	if err := b.failOnly("domain"); err != nil {
+		return eth2p0.Domain{}, err
+	}
 	if domainType == DomainTypes["DOMAIN_VOLUNTARY_EXIT"] {
 		return ComputeDomain(domainType, b.ForkByName("capella").Version, b.GenesisValidatorsRoot), nil
 	}
@@ -170,6 +174,9 @@ func (b *BN) Domain(_ context.Context, domainType eth2p0.DomainType, epoch eth2p
 // GenesisDomain: genesis fork version and the zero validators root (builder domain, deposits).
 func (b *BN) GenesisDomain(_ context.Context, domainType eth2p0.DomainType) (eth2p0.Domain, error) {
 	b.log("GenesisDomain")
+	if err := b.failOnly("domain"); err != nil {
+		return eth2p0.Domain{}, err
+	}
 	return ComputeDomain(domainType, b.Forks[0].Version, eth2p0.Root{}), nil
 }
 
@@ -220,6 +227,19 @@ func (b *BN) Fail(endpoint string, n int) {
 		b.fail = map[string]int{}
 	}
 	b.fail[endpoint] = n
+	delete(b.failErr, endpoint)
+	b.mu.Unlock()
+}
+
+// FailAs is Fail with the error value the endpoint returns (e.g. a typed *api.Error as an HTTP beacon
+// node client reports a 5xx answer, or a wrapped context error).
+func (b *BN) FailAs(endpoint string, n int, err error) {
+	b.Fail(endpoint, n)
+	b.mu.Lock()
+	if b.failErr == nil {
+		b.failErr = map[string]error{}
+	}
+	b.failErr[endpoint] = err
 	b.mu.Unlock()
 }
 func (b *BN) SetLatency(d time.Duration) { b.mu.Lock(); b.latency = d; b.mu.Unlock() }
@@ -250,6 +270,12 @@ func (b *BN) enter(endpoint string) error {
 		time.Sleep(lat)
 	}
 	if failing {
+		b.mu.Lock()
+		e := b.failErr[endpoint]
+		b.mu.Unlock()
+		if e != nil {
+			return e
+		}
 		return errScripted
 	}
 	return nil
@@ -262,6 +288,9 @@ func (b *BN) failOnly(endpoint string) error {
 	defer b.mu.Unlock()
 	if b.fail[endpoint] > 0 {
 		b.fail[endpoint]--
+		if e := b.failErr[endpoint]; e != nil {
+			return e
+		}
 		return errScripted
 	}
 	return nil
